@@ -91,8 +91,14 @@ mutual
     | setReg (r : Reg) (v : Rv)
     | units (m : UnitMode)
     | actAll (k : ActKind)
-    | setDefault
-    | action (k : ActKind) (ops : Operands)
+    /-- `set default`; `w`: a `WAIT` of its own (see `action`) -/
+    | setDefault (w : Bool)
+    /-- `on`/`off`/`set` with operands.  `w`: the command has a `WAIT` of its own — true everywhere
+    but (lexically) inside a matrix block, which is ONE command on the time line
+    (`parse.py: _action`: `if not (in_matrix() or …): WAIT`).  The field is determined by the
+    position of the statement in the script: `Block.lexical` sets it; the driver's reader
+    applies that to every script it reads. -/
+    | action (k : ActKind) (w : Bool) (ops : Operands)
     | get (name : Rv)
     | wait
     | timeAt (ps : List TP.Pat)
@@ -136,5 +142,49 @@ def Block.ofList : List Stmt → Block
 def Operands.ofList : List Operand_ → Operands
   | [] => .nil
   | s :: r => .cons s (Operands.ofList r)
+
+/-! ### the `WAIT` flag of commands, as the parser's context decides it
+
+`context.py`: `enter_matrix` sets `in_matrix`, `exit_matrix` clears it (blocks do not nest);
+`enter_routine` / `exit_routine` leave it as it is — so the body of a routine defined inside a
+matrix block is compiled without `WAIT`s wherever it is later called from, and the body of a routine
+defined outside with them, also when it is called from inside a block. -/
+mutual
+  def Stmt.lexical (m : Bool) : Stmt → Stmt
+    | .setDefault _ => .setDefault (!m)
+    | .action k _ ops => .action k (!m) (Operands.lexical m ops)
+    | .defRoutine n ps body => .defRoutine n ps (Block.lexical m body)
+    | .ite c t none => .ite c (Block.lexical m t) none
+    | .ite c t (some e) => .ite c (Block.lexical m t) (some (Block.lexical m e))
+    | .repeat_ h body => .repeat_ h (Block.lexical m body)
+    | .setReg r v => .setReg r v
+    | .units u => .units u
+    | .actAll k => .actAll k
+    | .get v => .get v
+    | .wait => .wait
+    | .timeAt ps => .timeAt ps
+    | .assign n v => .assign n v
+    | .defMacro n v => .defMacro n v
+    | .call f ps as => .call f ps as
+    | .ret v => .ret v
+    | .brk => .brk
+    | .print v => .print v
+    | .println v => .println v
+    | .printf fmt as => .printf fmt as
+    | .stage rows cols cf => .stage rows cols cf
+  def Block.lexical (m : Bool) : Block → Block
+    | .nil => .nil
+    | .cons s rest => .cons (Stmt.lexical m s) (Block.lexical m rest)
+  def Operand_.lexical (m : Bool) : Operand_ → Operand_
+    | .matrixBlock n body => .matrixBlock n (Block.lexical true body)
+    | .light n => .light n
+    | .group n => .group n
+    | .location n => .location n
+    | .zone n r => .zone n r
+    | .matrixInline n rows cols cf => .matrixInline n rows cols cf
+  def Operands.lexical (m : Bool) : Operands → Operands
+    | .nil => .nil
+    | .cons o rest => .cons (Operand_.lexical m o) (Operands.lexical m rest)
+end
 
 end Bardolph
